@@ -62,6 +62,9 @@ type Prop struct {
 	Canon func(impl string) string
 	// NTOf optionally decides non-triviality from the implementation's answer (overrides Case.NT).
 	NTOf func(c *Case, impl string) bool
+	// CanonBoth (optional) canonicalises an answer line of the implementation AND of the model (and of
+	// the specification) before anything is compared, e.g. JavaScript text -> token stream.
+	CanonBoth func(ans string) string
 }
 
 var props = map[string]*Prop{}
@@ -178,6 +181,14 @@ func corrMain(args []string) {
 			sa := runAll([]string{*driver}, specReqs, ncpu, 20*time.Second)
 			for k, i := range specIdx {
 				spec[i] = sa[k]
+			}
+		}
+		if p.CanonBoth != nil {
+			for i := range impl {
+				impl[i], model[i] = p.CanonBoth(impl[i]), p.CanonBoth(model[i])
+				if w, ok := spec[i]; ok {
+					spec[i] = p.CanonBoth(w)
+				}
 			}
 		}
 		seen := map[string]bool{}
